@@ -14,6 +14,7 @@ import (
 	"io"
 	"net"
 	"net/http"
+	"os"
 	"strings"
 	"time"
 
@@ -117,6 +118,7 @@ func (f *FakeRT) RoundTrip(req *http.Request) (*http.Response, error) {
 type FakeNet struct {
 	Dials    int
 	Writes   [][]byte
+	WriteOK  []bool                      // per write: it was accepted by the peer (no error, no stall)
 	DialErr  func(n int) error           // nil = always connect
 	WriteErr func(n int, b []byte) error // nil = always ok; n = index of the write
 	// Stall (optional): the peer has stopped reading and this write does not make progress. It then ends the way a
@@ -132,12 +134,22 @@ type fakeConn struct {
 	deadline time.Time // write deadline of this connection (zero: none)
 }
 
-var ErrWriteTimeout = errors.New("write tcp: i/o timeout")
+// ErrWriteTimeout is what a socket write returns when its deadline passes: a net.Error whose Timeout() is true and that
+// is os.ErrDeadlineExceeded for errors.Is.
+var ErrWriteTimeout error = writeTimeout{}
+
+type writeTimeout struct{}
+
+func (writeTimeout) Error() string        { return "write tcp 10.0.0.1:1->10.0.0.2:2003: i/o timeout" }
+func (writeTimeout) Timeout() bool        { return true }
+func (writeTimeout) Temporary() bool      { return true }
+func (writeTimeout) Is(target error) bool { return target == os.ErrDeadlineExceeded }
 
 func (c *fakeConn) Read(b []byte) (int, error) { return 0, io.EOF }
 func (c *fakeConn) Write(b []byte) (int, error) {
 	i := len(c.n.Writes)
 	c.n.Writes = append(c.n.Writes, append([]byte{}, b...))
+	c.n.WriteOK = append(c.n.WriteOK, false)
 	if c.n.Stall != nil && c.n.Stall(i) {
 		c.n.Wait(c.deadline)
 		return 0, ErrWriteTimeout
@@ -147,6 +159,7 @@ func (c *fakeConn) Write(b []byte) (int, error) {
 			return 0, err
 		}
 	}
+	c.n.WriteOK[i] = true
 	return len(b), nil
 }
 func (c *fakeConn) Close() error                       { c.n.Closed++; return nil }
